@@ -847,6 +847,10 @@ func (s *session) closeLocked() error {
 }
 
 func (s *session) readDisconnected(oldConn net.Conn, err error) {
+	// A read loop whose connection a redial has replaced in the meantime must
+	// not take the session over: the read loop of the current connection looks
+	// after it. It only makes sure that no call keeps waiting for a reply.
+	stale := s.redialForClientLocked != nil && oldConn != s.getConn()
 RELOAD:
 	status := s.getStatus()
 	vp("rd.loaded", s, int64(status), 0)
@@ -855,6 +859,9 @@ RELOAD:
 		return
 	case statusActiveClosing:
 	default:
+		if stale {
+			break
+		}
 		// a concurrent Close() may have changed the status since it was loaded
 		if !s.tryChangeStatus(statusPassiveClosing, status) {
 			goto RELOAD
@@ -862,7 +869,9 @@ RELOAD:
 		vp("rd.stored", s, 0, 0)
 	}
 
-	s.peer.sessHub.deleteSession(s)
+	if !stale {
+		s.peer.sessHub.deleteSession(s)
+	}
 	vp("rd.deleted", s, 0, 0)
 
 	var reason string
@@ -887,7 +896,7 @@ RELOAD:
 	})
 
 	vp("rd.cancelled", s, 0, 0)
-	if status == statusActiveClosing {
+	if status == statusActiveClosing || stale {
 		return
 	}
 
